@@ -234,6 +234,14 @@ func GetAttrString(self Object, key string) (res Object, err error) {
 		}
 	}
 
+	// A class object: look through the dictionaries of the classes in
+	// its own method resolution order (type_getattro)
+	if cls, ok := self.(*Type); ok && cls.Mro != nil {
+		if res = cls.Lookup(key); res != nil {
+			return res, nil
+		}
+	}
+
 	// Look in the instance dictionary if it exists
 	if I, ok := self.(IGetDict); ok {
 		dict := I.GetDict()
